@@ -277,7 +277,7 @@ def helpers():
             !(old(self).acked_protocol_features & 8 != 0 && hdr.flags & 8 != 0) ==> r is Ok && wire_same(*old(self), *final(self)) && !failed(*final(self)), // [C03,C18]
             (old(self).acked_protocol_features & 8 != 0 && hdr.flags & 8 != 0) ==>
                 ((wire_same(*old(self), *final(self)) && failed(*final(self)) && r is Err)
-                 || (rx1(*old(self), *final(self)) && (r is Ok) == (reply_matches(%(LX)s, *hdr) && %(LX)s.fds.len() == 0 && VhostUserU64::decode(%(LX)s.body).value == 0))), // [C03,C06]
+                 || (rx1(*old(self), *final(self)) && (r is Ok) == (reply_matches(%(LX)s, *hdr) && %(LX)s.fds.len() == 0 && VhostUserU64::decode(%(LX)s.body).value == 0))), // [C03,C06,C10] whenever an acknowledgement is due exactly one is consumed (an ack left unread would be taken by the next caller)
 """ % dict(same=same, LX=LXS))))
     return h
 
